@@ -113,23 +113,30 @@ def outcome_policy(rng, spec):
     return outcome
 
 
-def one_case(rng, flavour=None, max_sections=2500):
-    spec = gen_spec(rng, flavour)
+def one_case(rng, flavour=None, max_sections=2500, fixed=None):
+    """fixed = (spec, initial pools, schedule) replays a stored case exactly"""
+    spec = fixed[0] if fixed else gen_spec(rng, flavour)
     g, workers, root = trav.build_graph(spec)
     x = trav.Export(g, workers)
-    store = gen_store(rng, spec, g)
+    if fixed:
+        store = {(None if k == "None" else k): {tuple(t) for t in v} for k, v in fixed[1].items()}
+    else:
+        store = gen_store(rng, spec, g)
     graph_t = x.graph_term()
     store_t = x.store_term(store)
     run = trav.Run(g, workers, x, store, None, max_sections=max_sections)
-    run.go(rng, outcome_policy(rng, spec), wake_bias=rng.choice([0.2, 0.5, 0.9]))
+    run.go(rng, outcome_policy(rng, spec), wake_bias=rng.choice([0.2, 0.5, 0.9]),
+           fixed=[tuple(s) for s in fixed[2]] if fixed else None)
     events_t = clist([clist([trav.event_term(x, e) for e in evs]) for evs in run.events])
     term = cpair(graph_t, store_t, trav.schedule_term(run.sections), events_t)
     return {"spec": spec, "store": {str(k): sorted(v) for k, v in store.items()}, "run": run, "term": term, "x": x}
 
 
-def run_batch(ctx, n, flavours, tag, max_sections=2500):
+def run_batch(ctx, n, flavours, tag, max_sections=2500, fixed=None):
     """runs n traversals; returns the cases with 'diff' (index of the first differing section or None)"""
     cases = []
+    if fixed:
+        cases.append(one_case(ctx.rng, None, max_sections, fixed))
     for k in range(n):
         cases.append(one_case(ctx.rng, flavours[k % len(flavours)], max_sections))
     res = coq_failing(ctx, IMPORTS, "trav_case", [c["term"] for c in cases], ["trav_corr"], shard=max(1, len(cases) // 16 + 1), tag=tag,
